@@ -59,6 +59,7 @@ type modTarget struct {
 	sort string // heap key; "map:<type>" for maps
 	ref  *T
 	path []pathEl // non-empty: only this part of the object (an embedded struct reached through an interior pointer)
+	cell *Cell    // non-nil: a local variable of the caller (no heap region)
 }
 
 type frame struct {
@@ -465,6 +466,9 @@ func (x *executor) symbolic(st *state, name string, t types.Type) Val {
 
 func (x *executor) contractEval(m *machine, fr *frame, pos token.Pos, where string) *evaluator {
 	ev := &evaluator{x: x, st: m.st, old: x.entry, vars: x.params, frame: fr, pos: pos, pkg: x.pkg, where: where, implFor: x.implFor}
+	// inside the body (invariants, asserts, cuts) a parameter name means the parameter variable's current value;
+	// its entry value is <name>0
+	ev.currentParams = fr != nil && fr.top
 	return ev
 }
 
@@ -571,7 +575,7 @@ func (x *executor) verify(key string) (err error) {
 	for _, cl := range x.allModifies() {
 		ev2 := x.contractEval(m, nil, token.NoPos, cl.line)
 		ev2.st = x.entry
-		x.modSet = append(x.modSet, x.modTargetOf(ev2, cl.e))
+		x.modSet = append(x.modSet, x.modTargetsOf(ev2, cl.e)...)
 	}
 	if x.fc.decreases != nil {
 		ev2 := x.contractEval(m, nil, token.NoPos, x.fc.decreases.line)
@@ -640,6 +644,45 @@ func (x *executor) allModifies() []*clause {
 	return append(out, x.fc.modifies...)
 }
 
+// modTargetsOf: like modTargetOf, plus pointees(s): the objects pointed to by the interface elements of the
+// (constant-length) slice s, as at a variadic call f(&a, &b, ...)
+func (x *executor) modTargetsOf(ev *evaluator, e Expr) []modTarget {
+	if call, ok := e.(*ECall); ok {
+		if id, ok := call.Fun.(*EIdent); ok && id.Name == "pointees" && len(call.Args) == 1 {
+			c := x.c
+			v := ev.eval(call.Args[0])
+			sl, ok := v.typ.Underlying().(*types.Slice)
+			if !ok {
+				ev.fail("pointees needs a slice of interfaces")
+			}
+			n, okn := numeralValue(c.slLen(v.t))
+			if !okn || !n.IsInt64() || n.Int64() > 64 {
+				ev.fail("pointees(%s): the length of the slice is not a constant at this call", exprString(call.Args[0]))
+			}
+			arr := mkSelect(c.arrOf(ev.st, sl.Elem()), c.slRef(v.t))
+			var out []modTarget
+			for k := int64(0); k < n.Int64(); k++ {
+				u := mkSelect(arr, c.ix(c.slOff(v.t), c.I(k))).un()
+				found := false
+				for key, ct := range c.ifaceCtors {
+					if u.op == ct.name && len(u.args) == 1 {
+						if _, ok := c.ifaceTypes[key].Underlying().(*types.Pointer); ok {
+							pp := c.ptrOf(Val{t: u.args[0], typ: c.ifaceTypes[key]})
+							out = append(out, modTarget{heap: true, typ: pp.base, sort: heapKey(pp.base), ref: pp.ref, path: pp.path})
+							found = true
+						}
+					}
+				}
+				if !found {
+					ev.fail("pointees(%s): element %d is not a pointer known at this call (%s)", exprString(call.Args[0]), k, u.String())
+				}
+			}
+			return out
+		}
+	}
+	return []modTarget{x.modTargetOf(ev, e)}
+}
+
 func (x *executor) modTargetOf(ev *evaluator, e Expr) modTarget {
 	// pointee(v): the object an interface value v points to (its dynamic type must be a pointer known at the call)
 	if call, ok := e.(*ECall); ok {
@@ -648,8 +691,9 @@ func (x *executor) modTargetOf(ev *evaluator, e Expr) modTarget {
 			u := ev.term(v).un()
 			for k, ct := range x.c.ifaceCtors {
 				if u.op == ct.name && len(u.args) == 1 {
-					if pt, ok := x.c.ifaceTypes[k].Underlying().(*types.Pointer); ok {
-						return modTarget{heap: true, typ: pt.Elem(), sort: heapKey(pt.Elem()), ref: u.args[0]}
+					if _, ok := x.c.ifaceTypes[k].Underlying().(*types.Pointer); ok {
+						pp := x.c.ptrOf(Val{t: u.args[0], typ: x.c.ifaceTypes[k]})
+						return modTarget{heap: true, typ: pp.base, sort: heapKey(pp.base), ref: pp.ref, path: pp.path}
 					}
 				}
 			}
@@ -659,6 +703,18 @@ func (x *executor) modTargetOf(ev *evaluator, e Expr) modTarget {
 	// state(e): the abstract (model-function) state attached to the type of e, not its memory
 	if call, ok := e.(*ECall); ok {
 		if id, ok := call.Fun.(*EIdent); ok && id.Name == "state" && len(call.Args) == 1 {
+			// state(T) with a type name: the abstract state of that type (for objects the contract cannot name)
+			if sel, isSel := call.Args[0].(*ESel); isSel {
+				if pk, isId := sel.X.(*EIdent); isId {
+					for _, sp := range x.prog.prog.AllPackages() {
+						if sp.Pkg.Name() == pk.Name {
+							if o, isT := sp.Pkg.Scope().Lookup(sel.Name).(*types.TypeName); isT && ev.vars[pk.Name].typ == nil {
+								return modTarget{iface: typeKeyShort(o.Type())}
+							}
+						}
+					}
+				}
+			}
 			v := ev.eval(call.Args[0])
 			t := v.typ
 			if pt, ok := t.Underlying().(*types.Pointer); ok {
@@ -674,6 +730,10 @@ func (x *executor) modTargetOf(ev *evaluator, e Expr) modTarget {
 		return modTarget{heap: false, typ: u.Elem(), sort: heapKey(u.Elem()), ref: c.slRef(v.t)}
 	case *types.Pointer:
 		p := c.ptrOf(v)
+		if p.kind == pkCell && len(p.path) == 0 {
+			// pointer to a local variable of the caller (e.g. a method with pointer receiver called on a local)
+			return modTarget{cell: p.cell, typ: p.base}
+		}
 		if p.kind != pkHeap {
 			ev.fail("modifies target must point into the object heap")
 		}
@@ -812,7 +872,7 @@ func (x *executor) enterLoopHeader(m *machine, fr *frame, li *loopInfo) bool {
 	// modifies targets evaluated before the havoc
 	for _, cl := range lc.modifies {
 		ev.where = cl.line
-		lr.modRefs = append(lr.modRefs, x.modTargetOf(ev, cl.e))
+		lr.modRefs = append(lr.modRefs, x.modTargetsOf(ev, cl.e)...)
 	}
 	x.havocLoopRegion(m, fr, li, lr, nil, nil)
 	ev = x.contractEval(m, fr, pos, "")
@@ -983,6 +1043,12 @@ func (c *ctx) valueWF(v *T, t types.Type) *T {
 
 func (x *executor) havocTarget(st *state, mt modTarget) {
 	c := x.c
+	if mt.cell != nil {
+		nv := c.d.fresh("hv_"+mt.cell.name, c.sortOf(mt.typ))
+		st.assume(c.valueWF(nv, mt.typ))
+		st.cells[mt.cell] = Val{t: nv, typ: mt.typ}
+		return
+	}
 	if mt.iface != "" {
 		x.refreshToken(st, mt.iface)
 		return
@@ -1201,12 +1267,39 @@ func (x *executor) runAts(m *machine, fr *frame, in ssa.Instruction) {
 	default:
 		return
 	}
+	var before *state
 	for _, at := range fr.fc.ats {
 		if at.stmt != txt || at.kind == "cut" {
 			continue
 		}
 		at.used = true
+		if at.kind == "havoc" {
+			// ghost update: the abstract state named by the clause changes at this statement; the following
+			// assume clauses (trusted) relate it to before(...)
+			if before == nil {
+				before = m.st.clone()
+			}
+			ev := x.contractEval(m, fr, in.Pos(), at.cl.line)
+			for _, mt := range x.modTargetsOf(ev, at.cl.e) {
+				if mt.iface == "" {
+					panic(unsupported("havoc ... at: only state(...) targets are supported"))
+				}
+				declared := false
+				for _, d := range x.modSet {
+					if d.iface != "" && tokenKey(d.iface) == tokenKey(mt.iface) {
+						declared = true
+					}
+				}
+				if !declared {
+					x.oblige(m, "frame", x.instrName(fr, in, "frame")+".ghost:"+mt.iface, tFalse, nil, "ghost state of "+mt.iface+" updated but not declared in modifies")
+				}
+				x.refreshToken(m.st, mt.iface)
+			}
+			x.note("ghost update at " + txt + ": " + at.cl.text)
+			continue
+		}
 		ev := x.contractEval(m, fr, in.Pos(), at.cl.line)
+		ev.before = before
 		g := ev.evalBool(at.cl.e)
 		name := clauseName(at.cl, 0)
 		if at.kind == "assert" {
